@@ -12,7 +12,7 @@ META = {
             "Definition from classify_node, and the per-kind classifiers are called from classify_node only; R2 the node kinds the search "
             "casts a hit's parent to equal the kinds classify_node dispatches on; R3 Definition::name (the text the search compares tokens "
             "with) never stringifies a syntax node; every Definition variant that classify_name can produce for a binder has an arm; R4 "
-            "results are collected through a set and highlight restricts the same search to the current file. One obligation per function/kind.",
+            "results are collected through a set and highlight restricts the same search to the current file. One obligation per function/kind. R5 the search scope covers every module file of every package unless the definition is local. R6 = C05/S9 node identity; R4 also: a set that filters the references is keyed by (file, range).",
     "explanation": "The usage search keeps a hit only if a token at the offset has text == def.name() and classify_node(parent) == def; "
                    "go-to-definition is classify_node at the cursor. The two views can only be inverse if they share one classifier, "
                    "look at the same node kinds, and the name is the text of one identifier token. These necessary conditions are "
@@ -134,17 +134,71 @@ def run(F, res, tier):
     res.ob("R3", "binder-arms", "classify_name has an arm for every construct whose Name child declares something (incl. the spread binder `..rest`)",
            want <= arms, where=cn.loc(), how="arms: %s" % sorted(a.rsplit("::", 1)[-1] for a in arms))
     search_scope_rules(F, res)
+    node_identity_rules(F, res, "R6")
     # ---- R4
     for p, ty in (("ide::ide::references::references", "HashSet"), ("ide::ide::highlight_related::highlight_related", "HashSet")):
         f = F.fn(p)
         has_set = any("std::collections::hash::set::HashSet" in l["ty"] for l in f.d["locals"])
         res.ob("R4", "set/" + p.rsplit("::", 1)[-1], "%s collects its result through a set keyed by (file, range): nothing is listed twice" % p.rsplit("::", 1)[-1],
                has_set, where=f.loc(), how="HashSet local present: %s" % has_set)
+    import re as _re
+    rf = "ide::ide::references::references"
+    elems = set()
+    for q in [rf] + list(F.closures_of(rf)):
+        for l in F.fns[q].d["locals"]:
+            m = _re.search(r"(?:Hash|Index|BTree)Set<(.*)>$", l["ty"].split(", ")[0] + (">" if ", " in l["ty"] else ""))
+            if m:
+                elems.add(m.group(1))
+    narrow = sorted(e for e in elems if "FileRange" not in e and "FileId" not in e)
+    res.ob("R4", "references/sets-keyed-by-file", "a set that decides whether a found occurrence is listed by `references` is keyed by the file as "
+           "well as the range (the same range in two files is two references)", not narrow, where=F.fn(rf).loc(),
+           how="set element types: %s" % sorted(elems))
     highlight_current_file(F, res, "R4")
     hl = F.fn("ide::ide::highlight_related::highlight_related")
     calls = [FL.short(callee(t) or callee_def(t)) for b, t in hl.calls()]
     res.ob("R4", "highlight-same-search", "highlight_related runs the same usage search restricted to the current file (SearchScope::single_file)",
            "SearchScope::single_file" in calls and "FindUsages::all" in calls, where=hl.loc(), how=str([c for c in calls if "Search" in c or "FindUsages" in c]))
+
+
+def castable_kinds(F):
+    """SyntaxKinds some typed AST node can be cast from"""
+    from lib import teval
+    pure = teval.Pure(F)
+    SK = "syntax::kind::SyntaxKind"
+    kinds = F.variants(SK)
+    out = set()
+    n = 0
+    for p in sorted(F.fns):
+        if p.startswith("<syntax::ast::") and p.endswith(" as rowan::ast::AstNode>::can_cast"):
+            n += 1
+            for k in kinds:
+                try:
+                    if pure.call(p, [("e", SK, k)]) == 1:
+                        out.add(k)
+                except Exception:  # noqa
+                    pass
+    return out, n
+
+
+def node_identity_rules(F, res, rule):
+    """source maps key a declaration by AstPtr = (kind, text range): two distinct castable nodes must never share both"""
+    from lib import shape
+    R = shape.results(F)
+    cast, ncast = castable_kinds(F)
+    bad = [w for w in R["same_kind_wrappers"] if w[2] in cast]
+    res.floor("finish_node sites whose children were enumerated", len(R["finish_sites"]), 86)
+    res.floor("typed AST node types", ncast, 72)
+    for fn, n, kind in bad:
+        f = F.fn(fn)
+        res.ob(rule, "node-identity/%s/%s/%d" % (fn.rsplit("::", 1)[-1], kind, n),
+               "no %s node consists of exactly one %s node (same kind, same range: the two share one AstPtr, the source maps keep one of them "
+               "and the binder's name is looked up on the other)" % (kind, kind), False, where=f.loc(),
+               how="finish_node(_, %s) #%d in %s() can wrap a single child of kind %s and no token" % (kind, n, fn.rsplit("::", 1)[-1], kind))
+    res.ob(rule, "node-identity", "no castable syntax node consists of exactly one node of its own kind (so (kind, range) identifies a node, which "
+           "is what AstPtr, the body source map and classify_name rely on)", not bad, where="crates/syntax/src/parser.rs",
+           how="%d finish_node sites over %d parser functions, children enumerated on every control path up to 8 items; expect/eat sites proven "
+               "to consume: %d of %d; same-kind wrappers of castable kinds: %s"
+               % (len(R["finish_sites"]), R["functions"], R["certain_consumes"], R["expect_or_eat_sites"], [tuple(b) for b in bad]))
 
 
 def search_scope_rules(F, res):
